@@ -8,7 +8,6 @@ From V.model Require Import Base RelLex RelParse RelAcc RelGrammar.
 From V.model Require RelLossy.
 From V.proofs Require Import BaseP RelLexP RelGrammarLexP RelGrammarParseP RelGrammarAccP.
 From V.proofs Require RelLossyP.
-Set Default Timeout 60.
 
 Module L := RelLossy.
 
